@@ -56,6 +56,17 @@ def handleXdrSrc : List Sexp → Option String
       | list [atom big, c] => do pure (big == "1", (← xdrCell? c))
       | _ => none
     pure (srcOut (encCellsGeneral cs))
+  | [atom "xdr-src-rows", list tys, list rows] => do
+    -- `_sequencetype` on rows of `(big cell)` cells
+    let rs ← rows.mapM fun
+      | list cells => cells.mapM fun
+        | list [atom big, c] => do pure (big == "1", (← xdrCell? c))
+        | _ => none
+      | _ => none
+    pure (srcOut (encRowsCells (← tys.mapM xdrTy?) rs))
+  | [atom "xdr-src-seq", list tys, list fields, n] => do
+    -- `_sequencetype` on a structured array given by its field views
+    pure (srcOut (encSeqFields (← tys.mapM xdrTy?) (← fields.mapM xdrArr?) (← asNat? n)))
   | [atom "xdr-src-cellty", c] => do
     match (← xdrCell? c).ty? with
     | some t => pure t.name
